@@ -7,6 +7,12 @@
 //! returned `join()` are never observed before the body has finished (a drop guard declared first in the body sets a
 //! flag when the closure is left); the body ran exactly once; watchdog for completion.
 //!
+//! Cancelled joiner (`cj=1`, ~30 % of the scenarios): the target runs for 1–4 ms and returns its value; a joiner
+//! COROUTINE polls / waits / joins it and is itself cancelled by thread `t8` at a seeded moment (before it starts, on
+//! its way into `wait`, while it is blocked there, or after the finish). Oracles: a `wait()`/`join()` that returns has
+//! seen the body finished; `join()` never reports Cancel for the (never cancelled) target; the joiner's own handle
+//! reports Cancel exactly when the joiner did not reach its end; the target finishes with its value all the same.
+//!
 //! `VH_JOIN_CONC=1` switches to the defect witness: two actors call `wait()` on the same handle concurrently
 //! (`JoinHandle<T>: Sync`), the second `to_wake.store` drops the first blocker and its owner is never woken.
 use super::{spawn_actor_thread, LiveBuilt};
@@ -84,7 +90,7 @@ fn join(h: JoinHandle<usize>, tgt: u64, fin: &AtomicBool, expect: u64, fails: &F
         fails.lock().unwrap().push(format!("join() of c{tgt} returned before the body had finished"));
     }
     if code != expect {
-        fails.lock().unwrap().push(format!("join() of c{tgt} returned {code}, expected {expect}"));
+        fails.lock().unwrap().push(format!("join() returned a wrong result: c{tgt} gave {code}, expected {expect}"));
     }
 }
 
@@ -170,6 +176,21 @@ pub fn build(rng: &mut Rng, tier: u32) -> LiveBuilt {
         }
     }
     let owner_joins_directly = njoin == 1 && rng.chance(700);
+    // cancelled-joiner variant
+    let cj = !conc && rng.chance(300);
+    let cj_owner = rng.chance(500);
+    let cj_cancel_us = [0u64, 60, 200, 500, 1000, 2000, 4000][rng.below(7) as usize];
+    let (kind, yields, work_us) = if cj {
+        (0u8, 2 + rng.below(4) as usize, [300u64, 500, 800][rng.below(3) as usize])
+    } else {
+        (kind, yields, work_us)
+    };
+    if cj {
+        progs.truncate(1);
+        progs[0].who = Who::Co;
+        progs[0].wait = if cj_owner { rng.below(3) as u8 } else { 2 };
+        progs[0].polls = rng.below(3);
+    }
     let cancel_delay_us = [0u64, 30, 120, 400][rng.below(4) as usize];
     let expect = match kind {
         0 => v,
@@ -177,8 +198,8 @@ pub fn build(rng: &mut Rng, tier: u32) -> LiveBuilt {
         _ => 9999,
     };
     let header = format!(
-        "family=join kind={kind} yields={yields} joiners={njoin} direct={} conc={}",
-        owner_joins_directly as u8, conc as u8
+        "family=join kind={kind} yields={yields} joiners={njoin} direct={} conc={} cj={}",
+        owner_joins_directly as u8, conc as u8, cj as u8
     );
     LiveBuilt {
         header,
@@ -189,6 +210,8 @@ pub fn build(rng: &mut Rng, tier: u32) -> LiveBuilt {
             let fin = Arc::new(AtomicBool::new(false));
             let ran = Arc::new(AtomicUsize::new(0));
             let (fin2, ran2) = (fin.clone(), ran.clone());
+            let result = Arc::new(AtomicUsize::new(usize::MAX));
+            let result2 = result.clone();
             let gone = Arc::new(Mutex::new(vec![]));
             let (g1, g2, g3) = (gone.clone(), gone.clone(), gone.clone());
             let body = move || -> usize {
@@ -203,6 +226,7 @@ pub fn build(rng: &mut Rng, tier: u32) -> LiveBuilt {
                 }
                 match kind {
                     0 => {
+                        result2.store(v as usize, Ordering::SeqCst);
                         call("body.ret", v, 0);
                         v as usize
                     }
@@ -230,7 +254,81 @@ pub fn build(rng: &mut Rng, tier: u32) -> LiveBuilt {
             } else {
                 None
             };
-            if njoin == 1 && owner_joins_directly {
+            if cj {
+                let completed = Arc::new(AtomicBool::new(false));
+                let p = progs[0].clone();
+                let (fin3, fails3, comp3) = (fin.clone(), fails.clone(), completed.clone());
+                let mut shared = None;
+                let jh = if cj_owner {
+                    // the joiner owns the handle: is_done / wait, then join(self)
+                    unsafe {
+                        coroutine::Builder::new().name("c2".into()).spawn(move || {
+                            track_gone(&g2);
+                            run_prog(&p, &h, &fin3, &fails3, true);
+                            join(h, 1, &fin3, expect, &fails3);
+                            comp3.store(true, Ordering::SeqCst);
+                            call("body.ret", 0, 0);
+                            0usize
+                        })
+                    }
+                    .unwrap()
+                } else {
+                    let h = Arc::new(h);
+                    shared = Some(h.clone());
+                    unsafe {
+                        coroutine::Builder::new().name("c2".into()).spawn(move || {
+                            track_gone(&g2);
+                            run_prog(&p, &h, &fin3, &fails3, true);
+                            drop(h);
+                            comp3.store(true, Ordering::SeqCst);
+                            call("body.ret", 0, 0);
+                            0usize
+                        })
+                    }
+                    .unwrap()
+                };
+                let jco = jh.coroutine().clone();
+                let t8 = spawn_actor_thread("t8", move || {
+                    std::thread::sleep(Duration::from_micros(cj_cancel_us));
+                    unsafe { jco.cancel() };
+                    // keep the handle of the cancelled coroutine alive a little longer
+                    std::thread::sleep(Duration::from_micros(300));
+                    drop(jco);
+                });
+                // the joiner's own handle: Ok(0) if it reached its end, Cancel if it was unwound
+                call("join.join", 2, 0);
+                let r = jh.join();
+                let code = match r {
+                    Ok(v) => v as u64,
+                    Err(e) => e.downcast_ref::<u64>().map(|p| 1000 + *p).unwrap_or(9999),
+                };
+                ret("join.join", code);
+                let want = if completed.load(Ordering::SeqCst) { 0 } else { 9999 };
+                if code != want {
+                    fails.lock().unwrap().push(format!(
+                        "the handle of the cancelled joiner reported a wrong result: c2 gave {code}, expected {want} (reached its end: {})",
+                        want == 0
+                    ));
+                }
+                let _ = t8.join();
+                // the target is unaffected: it finishes with its value
+                if let Some(h) = shared {
+                    match Arc::try_unwrap(h) {
+                        Ok(h) => join(h, 1, &fin, expect, &fails),
+                        Err(_) => fails.lock().unwrap().push("handle still shared at the end".into()),
+                    }
+                }
+                // nobody may be left who joins the target (its handle died with the cancelled joiner): wait for its
+                // end through the body's own flag (the watchdog bounds the wait), then for its destruction
+                while !fin.load(Ordering::SeqCst) {
+                    std::thread::sleep(Duration::from_micros(50));
+                }
+                std::thread::sleep(Duration::from_micros(50));
+                wait_gone(&gone);
+                if result.load(Ordering::SeqCst) != v as usize || !fin.load(Ordering::SeqCst) {
+                    fails.lock().unwrap().push("the target did not finish with its value after its joiner was cancelled".into());
+                }
+            } else if njoin == 1 && owner_joins_directly {
                 // the owner of the handle polls / waits and then joins, racing with the finish
                 let p = progs[0].clone();
                 let (fin, fails2) = (fin.clone(), fails.clone());
